@@ -8,6 +8,6 @@ CONSTANTS
   MaxEvents = 1
   MaxPerTick = 1
   DrainAfterQuit = TRUE
-  ShowBeforeStop = TRUE
-INVARIANTS NoticeShownAtCompletion DisplayedIsPartOfSent
+  AfterCancel = "queued"
+INVARIANTS BoundedAfterCancel NoticeShownAtCompletion DisplayedIsPartOfSent
 CHECK_DEADLOCK FALSE
